@@ -22,7 +22,7 @@ CFGS = {
     "quick": ["MC_paths_u3.cfg", "MC_paths_loops.cfg"],
     "thorough": ["MC_paths_u3.cfg", "MC_paths_u3t4.cfg", "MC_paths_d3.cfg", "MC_paths_loops.cfg"],
 }
-PLABS = ["int", "str", "neg", "big"]
+PLABS = ["int", "zero", "str", "neg", "big"]
 
 
 def _graphs(chk, cfg):
@@ -112,19 +112,19 @@ def _dag(g, L, known, u, v, s, e):
     try:
         DG, src, tgt, _nt, _tt = al.temporal_dag(g, L.node(u), v=None if v == 0 else L.node(v),
                                                  start=None if s == NoT else L.time(s), end=None if e == NoT else L.time(e))
-        q["res"] = "ok"
+    except Exception as ex:       # the call itself raised: that is the result kind (never judged by its message)
+        q["res"] = core.exc_name(ex)
+        return q
+    try:
         root = L.node(u)
         q["edges"] = [[_occ(L, names, a), _occ(L, names, b)] for a, b in DG.edges()]
         q["dnodes"] = [_occ(L, names, n) for n in DG.nodes() if not (n == root and not isinstance(n, str)) and "_" in str(n)]
         q["sources"] = [_occ(L, names, n) for n in src]
         q["targets"] = [_occ(L, names, n) for n in tgt]
-    except (KeyError, ValueError) as ex:
-        if isinstance(ex, ValueError) and "proper subset" in str(ex):
-            q["res"] = "ValueError"
-        else:
-            q["res"] = "decode:" + core.exc_name(ex)
-    except Exception as ex:
-        q["res"] = core.exc_name(ex)
+        q["res"] = "ok"
+    except Exception as ex:       # occurrence names that do not decode as <node>_<instant>
+        q["res"] = "decode:" + core.exc_name(ex)
+        q["edges"], q["dnodes"], q["sources"], q["targets"] = [], [], [], []
     return q
 
 
